@@ -166,7 +166,11 @@ def gen_mutations(rng, case, q):
                 if q["k"] == "ns" and B.is_under(q["root"], m):
                     pass                      # adding next to a target of read_namespace would add a target
                 else:
-                    muts.append({"m": "add", "dir": m["dir"], "base": "%s.%d.%d.dsdl" % (m["short"], m["maj"], 9), "kind": "add_" + how, "text": text})
+                    # a minor version that no file of that name has and that nobody refers to
+                    used = {(f["maj"], f["min"]) for f in case["files"] if f["dir"] == m["dir"] and f["short"] == m["short"]}
+                    used |= {(it[2], it[3]) for f in case["files"] for it in f["body"] if it[0] == "ref"}
+                    mn = next(k for k in range(77, 200) if (m["maj"], k) not in used)
+                    muts.append({"m": "add", "dir": m["dir"], "base": "%s.%d.%d.dsdl" % (m["short"], m["maj"], mn), "kind": "add_" + how, "text": text})
     return muts
 
 
